@@ -48,6 +48,8 @@ def observe(feats, cfg, dbfn=":memory:"):
         except Exception as e:  # noqa
             fails.append(("lookup_raised", f.id))
     stored_ids = [f.id for f in rows]
+    if any(not isinstance(i, str) for i in stored_ids):
+        return None, snap, [("stored_key_is_not_text", repr([i for i in stored_ids if not isinstance(i, str)][:3]))]
     look = dbio.lookups(db, stored_ids)
     want = dbio.expected_lookups(snap["feats"], stored_ids)
     for k in stored_ids:
@@ -68,10 +70,44 @@ def observe(feats, cfg, dbfn=":memory:"):
     return None, snap, fails
 
 
+def text_route_rejects(feats, cfg):
+    """the same features as GFF3 TEXT in which a multi-valued attribute is written as a repeated key on its line (ID=a;Name=n;ID=b), next to ordinary
+    single-valued lines (so the file's dialect is NOT 'repeated keys'); returns None if the import raises, else the stored keys"""
+    import gffutils
+    lines = []
+    for f in feats:
+        parts = []
+        for k, vs in f["attrs"]:
+            if len(vs) >= 2:
+                parts += ["%s=%s" % (dec(k), dec(v)) for v in vs]
+            elif len(vs) == 1:
+                parts.append("%s=%s" % (dec(k), dec(vs[0])))
+            else:
+                parts.append(dec(k))
+        if len(parts) >= 3:
+            parts = parts[:1] + parts[2:] + parts[1:2]         # the repeats of a key are not adjacent
+        lines.append("chr1\ts\t%s\t1\t9\t.\t+\t.\t%s" % (dec(f["ftype"]), ";".join(parts)))
+    for n in range(4):
+        lines.append("chr1\ts\tregion\t1\t9\t.\t+\t.\tID=pad%d;Name=p%d" % (n, n))
+    try:
+        with dbio.quiet():
+            db = gffutils.create_db("\n".join(lines) + "\n", ":memory:", from_string=True, **G.real_kwargs(cfg))
+        return [f.id for f in db.all_features()]
+    except Exception:  # noqa
+        return None
+
+
 def compare(ctx, case, exp_snap, raised, snap, fails, exact=True):
     if exp_snap["st"] == "raise":
         if raised is None:
             ctx.violation(case, "not_rejected", {"stored_keys": [dec(f["id"]) for f in snap["feats"]]})
+            return
+        sp = case["cfg"]["idspec"]
+        if sp["kind"] == "list" and all(i["t"] == "attr" for i in sp["items"]) and all(vs for f in case["feats"] for _, vs in f["attrs"]) \
+                and all(dec(v).isalnum() for f in case["feats"] for _, vs in f["attrs"] for v in vs):
+            kept = text_route_rejects(case["feats"], case["cfg"])
+            if kept is not None:
+                ctx.violation(case, "not_rejected_text_route", {"stored_keys": kept})
         return
     if raised is not None:
         ctx.violation(case, "raised:" + raised, None)
